@@ -24,7 +24,7 @@ from ..explorer import Step
 from ..models import streams as SM
 
 PROPERTY = "C08"
-ALPHABET = "local: send_headers {request,response,info,trailers} x {+-ES} on ids {1,3,2,4}, send_data/end_stream/reset on {1,2}, push_stream, prioritize, advertise_alternative_service (origin / stream); peer: opening HEADERS, PUSH_PROMISE, END_STREAM"
+ALPHABET = "configurations {default, outbound validation+normalisation off}; local: refused-by-argument calls (invalid request list to send_headers / push_stream), send_headers with priority_depends_on=0 / priority_exclusive=False / priority_weight=16; send_headers {request,response,info,trailers} x {+-ES} on ids {1,3,2,4}, send_data/end_stream/reset on {1,2}, push_stream, prioritize, advertise_alternative_service (origin / stream); peer: opening HEADERS, PUSH_PROMISE, END_STREAM"
 BOUNDS = {"quick": "depth 5, both roles, handshaken and upgraded start states", "thorough": "depth 8 (or time budget, reported)"}
 sb = H.stateless_block
 
@@ -39,12 +39,18 @@ def block_class(hdrs):
     return "trailers"
 
 
+CONFIGS = {"default": {}, "nocheck": {"validate_outbound_headers": False, "normalize_outbound_headers": False}}
+BADREQ = [(b":method", b"GET"), (b":path", b"/")]           # refused by outbound validation: no :scheme / :authority
+PRIO_KW = {"dep0": {"priority_depends_on": 0}, "exF": {"priority_exclusive": False}, "w16": {"priority_weight": 16}}
+
+
 class Spec(L.Spec):
     def __init__(self, key):
-        _, role, start, tier = key
+        _, role, start, cfg, tier = key
         client = role == "client"
-        super().__init__(client, 5 if tier == "quick" else 8, upgraded=(start == "upgraded"))
-        self.name = "c08-%s-%s-%s" % (role, start, tier)
+        super().__init__(client, (5 if tier == "quick" else 8) - (1 if cfg != "default" else 0), upgraded=(start == "upgraded"))
+        self.cfg = CONFIGS[cfg]
+        self.name = "c08-%s-%s-%s-%s" % (role, start, cfg, tier)
         f, aux = self.sids
         p = self.promised
         A = []
@@ -57,6 +63,11 @@ class Spec(L.Spec):
             A += ["l:data:%d" % sid, "l:data:%d:es" % sid, "l:end:%d" % sid]
         A += ["l:rst:%d" % f, "l:push:%d:%d" % (f, p), "l:push:%d:%d" % (p, p + 2), "l:prio:%d" % f, "l:prio:%d" % (p + 6),
               "l:altsvc:origin", "l:altsvc:%d" % f]
+        # calls the library must refuse for their arguments (they may not leave anything behind that a later call can use)
+        A += ["l:badhdr:%d" % f, "l:badhdr:%d" % aux, "l:badpush:%d:%d" % (f, p)]
+        # priority information given with header blocks: falsy but present values included
+        for k in sorted(PRIO_KW):
+            A.append("l:hdrp:%d:%s:%s" % (f, "request" if client else "response", k))
         if client:
             A += ["rx:hdr:%d:response" % f, "rx:hdr:%d:response:es" % f, "rx:push:%d:%d" % (f, p), "rx:hdr:%d:response" % p,
                   "rx:data:%d:es" % f]
@@ -64,8 +75,51 @@ class Spec(L.Spec):
             A += ["rx:hdr:%d:request" % f, "rx:hdr:%d:request:es" % f, "rx:hdr:%d:request" % aux, "rx:data:%d:es" % f]
         self.menu = A + ["cleanup"]
 
+    def initial(self):
+        st = L.LState(self.client, self.upgraded, **self.cfg)
+        self.init_extra(st)
+        return [("upgraded" if self.upgraded else "handshaken", st)]
+
+    def apply(self, st, lab):
+        """as the shared lifecycle system, except that a path goes on after a refused LOCAL call: the output grammar is
+        judged against what is on the wire, and the statement covers every program, calls after a refusal included"""
+        viols = []
+
+        def bad(kind, msg, **sig):
+            s = {"kind": kind, "role": "client" if self.client else "server"}
+            s.update(sig)
+            viols.append({"kind": kind, "sig": s, "msg": msg})
+
+        o, info = self.execute(st, lab)
+        if o is None:
+            return Step("cleanup", viols)
+        out = self.judge(st, lab, info, o, bad)
+        if o.kind == "raise" and info["dir"] == "rx":
+            st.dead = True
+            return Step(out, viols, prune=True)
+        if viols:
+            st.dead = True
+        return Step(out, viols)
+
     def execute(self, st, lab):
         parts = lab.split(":")
+        if parts[0] == "l" and parts[1] in ("badhdr", "badpush", "hdrp"):
+            h = st.h
+            m = h.m
+            sid = int(parts[2])
+            s = m.get(sid)
+            info = {"dir": "l", "kind": parts[1], "es": False, "sid": sid, "status": m.status(sid),
+                    "state": s.state if s is not None else "idle", "sent": s.sent if s is not None else "none",
+                    "recv": s.recv if s is not None else "none", "must_refuse": parts[1] != "hdrp" and bool(not self.cfg)}
+            if parts[1] == "badhdr":
+                o = h.api("send_headers", sid, H.ni(BADREQ))
+            elif parts[1] == "badpush":
+                o = h.api("push_stream", sid, int(parts[3]), H.ni(BADREQ))
+            else:
+                info["prio_kw"] = parts[4]
+                info["must_refuse"] = not self.client
+                o = h.api("send_headers", sid, H.ni(L.BLOCKS[parts[3]]), **PRIO_KW[parts[4]])
+            return o, info
         if parts[0] == "l" and parts[1] in ("prio", "altsvc"):
             h = st.h
             info = {"dir": "l", "kind": parts[1], "es": False, "sid": 0}
@@ -88,7 +142,7 @@ class Spec(L.Spec):
         m = st.h.m
         client = self.client
         if o.kind == "raise":
-            if not o.is_proto and not (o.exc_name == "RFC1122Error" and info["kind"] == "prio"):
+            if not o.is_proto and not (o.exc_name == "RFC1122Error" and info["kind"] in ("prio", "hdrp")):
                 bad("refusal-not-protocol-error", "%s refused with %s (%s)" % (lab, o.exc_name, o.msg), exc=o.exc_name,
                     action=info["kind"])
             if o.raw:
@@ -115,11 +169,19 @@ class Spec(L.Spec):
                 if not client:
                     bad("server-emitted-priority", "%s emitted %s" % (lab, f.brief()))
             elif f.type == wire.HEADERS:
+                if f.f["prio"] is not None and not client:
+                    bad("server-emitted-priority", "%s emitted HEADERS carrying priority fields %r" % (lab, f.f["prio"]), carrier="HEADERS")
                 hdrs = blocks.get(id(f))
                 if hdrs is None:
                     bad("undecodable-headers", "%s emitted an undecodable block" % lab)
                     continue
                 cls = block_class(hdrs)
+                if self.cfg:
+                    # outbound validation is off: the application vouches for the content of its header lists, the
+                    # library only recognises informational responses (by :status 1xx); everything else is what its
+                    # position makes it - the first block is the request / final response, a later one the trailers
+                    if not (cls == "info" and not client):
+                        cls = ("request" if client else "response") if sent == "none" else "trailers"
                 if state == "idle":
                     if not client:
                         bad("server-opened-stream-with-headers", "%s: server emitted HEADERS (%s block) on stream %d which the peer did not open and was not promised" % (
@@ -166,6 +228,8 @@ class Spec(L.Spec):
 
 
 def make_spec(key):
+    if len(key) == 4:       # replay records written before the configuration dimension existed
+        key = (key[0], key[1], key[2], "default", key[3])
     return Spec(key)
 
 
@@ -173,4 +237,5 @@ def run(ctx):
     quick = ctx.tier == "quick"
     for role in ("server", "client"):
         for start in ("handshaken", "upgraded"):
-            ctx.explore(("c08", role, start, ctx.tier), time_budget=None if quick else 420)
+            for cfg in sorted(CONFIGS):
+                ctx.explore(("c08", role, start, cfg, ctx.tier), time_budget=None if quick else 300)
